@@ -122,6 +122,41 @@ def poolStep (p : Pool) (args : List String) : Pool × String :=
           | .ok hs => (p1, s!"ok hosts={joinC (sortStrings hs)} wl={wl}")
           | .error e => (p1, showPoolErr e ++ s!" wl={wl}")
     | _, _, _ => (p, "bad-op")
+  | "host" :: conn :: id :: nonce :: sig :: kind :: rest =>
+    match int? nonce, findInt "now" rest, (findStr "uset" rest).bind bool?, (findStr "ubad" rest).bind bool? with
+    | some nonce, some now, some uset, some ubad =>
+      let ov : Option Override := if uset then
+        some { hostname := (findStr "uhost" rest).getD "", port := (findStr "uport" rest).getD "", username := (findStr "uuser" rest).getD "" }
+        else none
+      let c := if conn = "~" then none else some conn
+      let (p', r) := p.Host c ((findStr "src" rest).getD "") (sigOk sig) (tok id) nonce (tok kind) ((findStr "payout" rest).getD "") ov ubad now
+      match r with
+      | .ok _ => (p', "ok")
+      | .error e => (p', showPoolErr e)
+    | _, _, _, _ => (p, "bad-op")
+  | "client" :: conn :: id :: nonce :: sig :: kind :: rest =>
+    match int? nonce, (findStr "num" rest).bind int?, findInt "now" rest with
+    | some nonce, some num, some now =>
+      let choice := (findArg "choice" rest).getD []
+      let c := if conn = "~" then none else some conn
+      -- validate the oracle against the state in which the store is queried (after verify + connect)
+      match p.verify (sigOk sig) (tok id) nonce now with
+      | .error e => (p, showPoolErr e)
+      | .ok p1 =>
+        match p1.connect c "" (tok id) { kind := Pool.parseKindStr (tok kind), isFull := false } now with
+        | (p2, .error e) => (p2, showPoolErr e)
+        | (p2, .ok _) =>
+          let n := Pool.clientNumHosts num
+          let okChoice := match p2.activeHostsLimit (tok id) n with
+            | some lim => p2.store.validHostChoice (tok kind) lim now choice
+            | none => choice.isEmpty
+          if !okChoice then (p2, "bad-choice")
+          else
+            let wl := joinC (sortStrings ((p2.whitelistCalls (tok id) n choice).map (·.2)))
+            match p2.requestHosts (tok id) n choice (outcomeFn rest) with
+            | .ok hs => (p2, s!"ok hosts={joinC (sortStrings hs)} wl={wl}")
+            | .error e => (p2, showPoolErr e ++ s!" wl={wl}")
+    | _, _, _ => (p, "bad-op")
   | ["close", conn] => (p.closeRemote conn, "ok")
   | "addnode" :: w :: nonce :: sig :: id :: rest =>
     match int? nonce, findInt "now" rest with
